@@ -9,7 +9,7 @@ from scipy.special import comb
 from epsie.chain import Chain
 from epsie.proposals import NestedTransdimensional
 
-from .. import core, configs as C
+from .. import core, dens, configs as C
 
 ASSUMPTIONS = [
     "the per-component birth and in-model log-densities entering the composite density are taken from the real sub-objects at the moment "
@@ -157,7 +157,7 @@ def run(seed, tier):
             # births narrower than the prior: components can sit where no birth can put them, so their death is irreversible
             cfg['birth'], cfg['birth_bounds'] = 'uniform', rng.choice([(1., 3.), (0.5, 2.0)])
         cfg['nchains'] = 1
-        cfg['blobs'] = False
+        cfg['blobs'] = cfg['pt'] and i % 2 == 0        # with blobs the exchange sweep has more to carry along
         cfg['k_bounds_frac'] = i % 2 == 1          # index bounds given as (0.5, N - 0.5): documented to mean 0..N
         kstd = rng.choice([0.7, 1.0, 2.0, 3.0])
         N = cfg['td_n']
@@ -204,6 +204,22 @@ def run(seed, tier):
     codes = {1: 'forward composite density', 2: 'reverse composite density', 3: 'acceptance ratio'}
     for f in failing[:10]:
         out.corr_failures.append(dict(note='model and implementation disagree on the ' + codes.get(f[1], '?'), case=metas[f[0]]))
+    # the index-jump term of the ratio (bd_logpmf1) is the law of the index proposal's jump: its redraw rule, case by case, with
+    # draws on and around the edge cells
+    def make(r):
+        c = C.gen(r, kind='td', allow_annealer=False)
+        c['td_n'] = r.choice([2, 3, 4, 5])
+        c['k_bounds_frac'] = r.random() < 0.5
+        mp = C.td_proposal(c).model_proposal
+        mp._std = numpy.array([r.choice([0.7, 1.0, 2.0, 3.0])])
+        mp.bit_generator = numpy.random.PCG64(1)
+        return mp, 'k', bool(c['successive']), 0, c['td_n']
+    jterms, jmetas = dens.index_jump_cases(rng, out, make, 24 if thorough else 6)
+    failing = core.run_coq_cases('C11', dens.HEADER, jterms, per_file=300, tag='indexjump')
+    for f in failing[:10]:
+        out.corr_failures.append(dict(note='the index proposal does not jump by the redraw rule whose law enters the ratio (bd_jump1 / bd_logpmf1)',
+                                      case=jmetas[f[0]]))
+    out.count('coq_index_jump_cases', len(jterms))
     out.count('coq_cases', len(terms))
     return out
 
